@@ -84,6 +84,11 @@ CHECKS = {
           "A's call future dropped before queueing / queued behind another call / at the first or second suspension point / with the reply in flight, or A's connection cut, for a cancellable and a #[no_cancel] method on by-value, ref-mut and shared-mut (spawn on/off) servers; unknown method (newer client trait), over-long request, over-long reply at position 0..2 among three calls. Oracle: cancellable executions stop at the next suspension point once the server has settled, #[no_cancel] ones finish, another client's &mut and &self calls complete afterwards (lock released), serve() is still running, an item failure fails only that call.",
           "Cancellation is required only after two quiescence periods with the caller gone. Known finding F6 (over-long reply ends serve(), pinned by the suite) is listed in known_findings.json. Mismatched argument types are decoded leniently by the default codec and are not a failing item.",
           "DESIGN.md 4/C19"),
+  "C17": ("model_checking",
+          "deviation-bounded schedule exploration with preemption injection + timing sweeps of real remote rw_lock handles; timed-history oracle",
+          "Two clones on the owner's endpoint (shared cache) and two independently sent handles on a remote endpoint run scripts of <= 3 operations over {read and hold, write+commit, write+drop}, cold and warm caches; a write shifted by k = 0..23/39 steps against a read on another handle, each with a further deviation; loss of the connection of an endpoint holding a read or write guard. Oracle: no write guard interval overlaps any other guard, write guards obtain the latest commit, reads return a value current at some instant of the call, commits are never lost, dropped write guards change nothing, and with all guards released every request completes (no deadlock).",
+          "Guard intervals measured with the scheduler step counter; a write guard ends when commit() consumes it. Holder-loss cases judge the surviving endpoint only. Quick tier is time-capped (reported).",
+          "DESIGN.md 4/C17"),
 }
 
 NOT_YET = "check not built yet in this session (design in DESIGN.md section 4); not claimed"
